@@ -10,6 +10,9 @@ pub const SUBST: [u8; 10] = [0x00, 0x01, 0x02, 0x0A, 0x20, 0x5C, 0x7F, 0x80, 0xF
 pub const TAIL_ALPHABET: [u8; 8] = [0x00, 0x01, 0x0A, 0x5C, 0x80, 0xC3, 0xFE, 0xFF];
 /// a valid two-byte UTF-8 character, written over two bytes at every offset (byte-indexed string slicing)
 pub const UTF8_PAIR: [u8; 2] = [0xC3, 0xA9];
+/// a valid two-byte UTF-8 character that is WHITE SPACE (NO-BREAK SPACE): code that splits text at char::is_whitespace and
+/// steps on by one byte lands inside it
+pub const UTF8_BLANK: [u8; 2] = [0xC2, 0xA0];
 pub const TEXT_NUMBERS: [&str; 9] = ["", "0", "1", "-1", "256", "65536", "4294967296", "99999999999999999999", "x"];
 /// every decimal number of the datagram replaced by the same value at once (fields that only bound each other)
 pub const ALL_TEXT_NUMBERS: [&str; 4] = ["65536", "1000000", "4294967296", "99999999999999999999"];
@@ -575,7 +578,7 @@ impl<'a> Menu<'a> {
                 Layout {
                     trunc: len,
                     subst: len * SUBST.len(),
-                    utf8: len.saturating_sub(1),
+                    utf8: 2 * len.saturating_sub(1),
                     wide: if self.wide { len * WIDE.len() } else { 0 },
                     textnum: if has && is_text_family(self.f) {
                         let runs = digit_runs(self.d.unwrap()).len();
@@ -648,8 +651,10 @@ impl<'a> Menu<'a> {
         i -= l.subst;
         if i < l.utf8 {
             let mut x = d.to_vec();
-            x[i] = UTF8_PAIR[0];
-            x[i + 1] = UTF8_PAIR[1];
+            let half = l.utf8 / 2;
+            let (at, pair) = if i < half { (i, UTF8_PAIR) } else { (i - half, UTF8_BLANK) };
+            x[at] = pair[0];
+            x[at + 1] = pair[1];
             return custom(x);
         }
         i -= l.utf8;
